@@ -1,0 +1,120 @@
+//go:build verif
+// +build verif
+
+package tmindex
+
+// Accessors for the verification harness of property C02 (time-range queries): a ckindex tree over
+// in-memory blocks that can be driven interval by interval, and a TsIndexer over a given directory.
+// Nothing here changes behaviour; the file is compiled only with `-tags verif`.
+
+import (
+	"context"
+
+	"github.com/logrange/range/pkg/bstorage"
+)
+
+const (
+	VC02SparseSpace      = sparseSpace
+	VC02MaxRecsPerBlock  = maxRecsPerBlock
+	VC02AnsRecord        = 0
+	VC02AnsAllMatches    = 1
+	VC02AnsOtherError    = 2
+	VC02BigGapMultiplier = 20
+)
+
+type (
+	// VC02Rec is ckindex's record
+	VC02Rec struct {
+		Ts  int64
+		Idx uint32
+	}
+
+	// VC02Tree is one index tree inside a private in-memory ckindex
+	VC02Tree struct {
+		cki  *ckindex
+		root int
+	}
+)
+
+// VC02NewTree creates an empty tree on a fresh in-memory block storage of `segments` segments
+func VC02NewTree(segments int) (*VC02Tree, error) {
+	if segments < 1 {
+		segments = 1
+	}
+	bks := bstorage.GetBlocksInSegment(blockSize)
+	bts := bstorage.NewInMemBytes(segments * bks * blockSize)
+	bs, err := bstorage.NewBlocks(blockSize, bts, true)
+	if err != nil {
+		return nil, err
+	}
+	return &VC02Tree{cki: newCkIndex(bs), root: -1}, nil
+}
+
+// Add calls ckindex.addInterval with the current root (-1 for the first call)
+func (t *VC02Tree) Add(p0, p1 VC02Rec) error {
+	root, err := t.cki.addInterval(t.root, interval{record{p0.Ts, p0.Idx}, record{p1.Ts, p1.Idx}})
+	if err != nil {
+		return err
+	}
+	t.root = root
+	return nil
+}
+
+func vc02Ans(r record, err error) (VC02Rec, int) {
+	switch err {
+	case nil:
+		return VC02Rec{r.ts, r.idx}, VC02AnsRecord
+	case errAllMatches:
+		return VC02Rec{}, VC02AnsAllMatches
+	}
+	return VC02Rec{}, VC02AnsOtherError
+}
+
+// GrEq calls ckindex.grEq on the root
+func (t *VC02Tree) GrEq(ts int64) (VC02Rec, int) { return vc02Ans(t.cki.grEq(t.root, ts)) }
+
+// Less calls ckindex.less on the root
+func (t *VC02Tree) Less(ts int64) (VC02Rec, int) { return vc02Ans(t.cki.less(t.root, ts)) }
+
+// Traversal returns the level-0 intervals in order as pairs (p0, p1)
+func (t *VC02Tree) Traversal() ([][2]VC02Rec, error) {
+	res, err := t.cki.traversal(t.root, nil)
+	if err != nil {
+		return nil, err
+	}
+	out := make([][2]VC02Rec, len(res))
+	for i, it := range res {
+		out[i] = [2]VC02Rec{{it.p0.ts, it.p0.idx}, {it.p1.ts, it.p1.idx}}
+	}
+	return out, nil
+}
+
+// Count calls ckindex.count on the root
+func (t *VC02Tree) Count() (int, error) { return t.cki.count(t.root) }
+
+// Level returns the level of the root block (0 = a single leaf)
+func (t *VC02Tree) Level() int {
+	b, err := readBlock(t.cki.bks, t.root)
+	if err != nil {
+		return -1
+	}
+	return b.level()
+}
+
+// UsedBlocks returns the number of allocated blocks of the storage
+func (t *VC02Tree) UsedBlocks() int { return t.cki.bks.Count() - t.cki.bks.Available() }
+
+// Close closes the private ckindex
+func (t *VC02Tree) Close() { t.cki.Close() }
+
+// VC02NewTsIndexer returns an initialised TsIndexer that keeps its files in dir, and its shutdown function
+func VC02NewTsIndexer(dir string) (TsIndexer, func(), error) {
+	ti := new(tmidx)
+	ti.Config = &TsIndexerConfig{Dir: dir}
+	nti := NewTsIndexer().(*tmidx)
+	ti.logger = nti.logger
+	if err := ti.Init(context.Background()); err != nil {
+		return nil, nil, err
+	}
+	return ti, ti.Shutdown, nil
+}
